@@ -35,6 +35,10 @@ NMAX = {"quick": 60, "thorough": 80}
 _tier = ["quick"]
 
 
+# thorough tier: coverage-guided (atheris) drive of the same generator and oracle: kind -> (shards, cases per shard)
+FUZZ = {"generated": (8, 30)}
+
+
 def plan(tier):
     return [("enumerated", 16, 6 if tier == "quick" else 60)]
 
